@@ -14,3 +14,5 @@ OBLIGATIONS = K.READER_COMMON + K.CIR_READER + [K.WIG_BLOCK_R, K.BED_BLOCK_R, K.
 OBLIGATIONS = OBLIGATIONS + [K.BLOCK_DATA, K.SEARCH_ORDER, K.CACHE, K.CACHED_SIBS]
 OBLIGATIONS = OBLIGATIONS + [K.MAGICS]
 OBLIGATIONS = OBLIGATIONS + [K.ARG_NAMES]
+OBLIGATIONS = OBLIGATIONS + [K.MIR_READER_ARITH]
+OBLIGATIONS = OBLIGATIONS + [K.INFO_TOOLS]
